@@ -19,6 +19,10 @@ type Var struct {
 	Obj    types.Object
 	Typ    types.Type
 	Pinned bool // address taken or captured: never pruned by liveness
+	// Captured: referenced from a function literal (which may run later); an
+	// address-taken variable that is not captured may be pruned once it is
+	// dead and no live value holds its address
+	Captured bool
 }
 
 type Term struct {
@@ -30,6 +34,8 @@ type Term struct {
 	Pos    token.Pos
 	Owner  string // Op == "field": the struct type that declares the field
 	k      string
+	av     []int // ids of the variables whose address the term holds (lazily computed)
+	avDone bool
 }
 
 func mk(op, name string, args ...*Term) *Term { return &Term{Op: op, Name: name, Args: args} }
@@ -695,4 +701,23 @@ func (a Atom) String() string {
 		return "+" + a.Key
 	}
 	return "-" + a.Key
+}
+
+// addrVars: ids of the variables whose address occurs in the term.
+func (t *Term) addrVars() []int {
+	if t == nil {
+		return nil
+	}
+	if t.avDone {
+		return t.av
+	}
+	var out []int
+	if (t.Op == "addrvar" || t.Op == "var") && t.V != nil {
+		out = append(out, t.V.ID)
+	}
+	for _, a := range t.Args {
+		out = append(out, a.addrVars()...)
+	}
+	t.av, t.avDone = out, true
+	return out
 }
